@@ -158,7 +158,16 @@ func OpAddExcludedFile(r *rng.R, e *Env) string {
 	if t == nil {
 		return ""
 	}
-	ex := rng.Pick(r, t.Excludes)
+	var globs []string
+	for _, ex := range t.Excludes {
+		if strings.HasSuffix(ex, "/**/skip*.txt") {
+			globs = append(globs, ex)
+		}
+	}
+	if len(globs) == 0 {
+		return ""
+	}
+	ex := rng.Pick(r, globs)
 	d := strings.TrimSuffix(ex, "/**/skip*.txt")
 	name := fmt.Sprintf("%s/skip%s.txt", d, r.Word(2, 4))
 	e.Spec.Files[pre(t)+name] = r.Word(1, 10)
